@@ -58,6 +58,7 @@ def _child(engine, job, root, wfd):
     try:
         os.chdir(root)
         seams.limit_cpu(job.get('cpu_s', 60))
+        seams.limit_as()
         sys.setrecursionlimit(3000)
         out = engine.run(job, root)
     except BaseException as e:  # noqa
